@@ -386,6 +386,13 @@ def gen_star(rng, algo, nettype, k=None):
     rt = {"name": rname}
     if directed:
         rt["degree"] = k + 2
+    elif rng.random() < 0.35:
+        # a fan-out: an array of endpoints, all of them on the one router (`allow_multi`), in either orientation
+        n = rng.randint(2, 4)
+        fan = mk_endpoint(rng, nettype, alloc, rng.choice([x for x in NAME_POOL if all(x != e["name"] for e in eps)]), array=[n])
+        eps.append(fan)
+        c = {"src": fan["name"], "dst": rname, "src_range": [[0, n - 1]], "allow_multi": True}
+        conns.append(c if rng.random() < 0.6 else flip_conn(c))
     return finish(rng, cfg, eps, [rt], conns)
 
 
@@ -501,6 +508,8 @@ def mesh_parts(rng, algo, nettype, alloc, m, n, rname, sides=None, partial_local
         ename = spare.pop()
         ep = mk_endpoint(rng, nettype, alloc, ename, force_role=rng.choice(["sbr", "dual", "mgr"]))
         ep["xy_id_offset"] = {"x": rng.randint(1, 5), "y": rng.choice([0, 0, 2])}
+        if rng.random() < 0.5:
+            ep["xy_id_offset"]["port_id"] = rng.randint(1, 3)      # not a key of the offset: ignored
         eps.append(ep)
         conns.append({"src": ename, "dst": rname, "dst_idx": [m - 1, rng.randrange(n)], "dst_dir": "East"})
     return eps, conns, (6 if extra_port else 5)
